@@ -272,6 +272,10 @@ class Prop:
     def model_input(self, case):
         raise NotImplementedError
 
+    def model_input2(self, case, obs):
+        """model input that may also use the implementation's observation (e.g. its bytes)"""
+        return self.model_input(case)
+
     def compare(self, case, obs, mout):
         """None if model and implementation agree on this case, else a description"""
         raise NotImplementedError
@@ -354,12 +358,13 @@ def run_prop(prop, tier, seed, replay=None):
     obs = run_impl(prop.impl_module, cases, per_case=prop.per_case_timeout) if cases else []
     mouts = None
     if model_ok and cases:
-        mouts, merr = run_model(prop.entry, [prop.model_input(c) for c in cases])
+        minputs = [prop.model_input2(c, o) for c, o in zip(cases, obs)]
+        mouts, merr = run_model(prop.entry, minputs)
         if mouts is None:
             broken.append("model runner failed: " + merr)
         else:
             k = min(40, len(cases))
-            okx, msg = vm_crosscheck(prop.entry, [prop.model_input(c) for c in cases[:k]], mouts[:k], prop.id)
+            okx, msg = vm_crosscheck(prop.entry, minputs[:k], mouts[:k], prop.id)
             res.notes.append("vm_compute cross-check: " + msg)
             if not okx:
                 broken.append(msg)
